@@ -51,6 +51,7 @@ func NewEngine(prog *Program, cs *ContractSet) *Engine {
 	e.resolveContracts()
 	e.findConstGlobals()
 	e.checkTypeInvs()
+	e.checkImmutable()
 	return e
 }
 
